@@ -101,7 +101,7 @@ func (p *Path) tryGuess(cons []*B, atomIDs, varIDs []int, key string) map[string
 			a := p.atoms[id]
 			lv := p.ivars[a.lenv]
 			lo, hi := lv.lo, lv.hi
-			if hi > lo+64 {
+			if _, single := a.cls.single(); hi > lo+64 && !single {
 				hi = lo + 64
 			}
 			var n int64
